@@ -47,7 +47,7 @@ func runLife(e *Env) {
 	timeout := []time.Duration{300 * time.Millisecond, 100 * time.Millisecond, 2500 * time.Millisecond}[tp.Next(3)]
 	nTasks := 1 + tp.Next(4)
 	nOps := 2 + tp.Next(5)
-	closers := 1 + tp.Next(2)
+	closers := tp.Next(3)                  // none: the session stays open to the end and its pools are inspected after a settle
 	closeAfter := tp.Next(nTasks*nOps + 1) // how many query ops complete before the first Close is allowed
 	e.Note("hosts", nHosts)
 	e.Note("numConns", numConns)
@@ -295,6 +295,7 @@ func runLife(e *Env) {
 	// ---- settle: faults stop, everything reachable again ----
 	k.BeginSettle()
 	cutNext = 0
+	cl.Net.ClearDialOnce()
 	for _, h := range cl.Hosts {
 		cl.Net.SetDialMode(h.Addr, simnet.DialAccept)
 	}
@@ -311,23 +312,26 @@ func runLife(e *Env) {
 	if k.Violation() == nil && closeCalled == 0 {
 		// the session is still open: a reachable host whose pool lost connections is
 		// refilled after queries routed to it and a settle
-		for i := 0; i < 2*nHosts && k.Violation() == nil; i++ {
-			done := make(chan struct{})
-			go func() {
-				var got string
-				_ = sess.Query(fmt.Sprintf("ECHO 'tok-9-%d'", i)).Scan(&got)
-				close(done)
-			}()
-			k.SettleUntil(10*time.Second, 10*time.Millisecond, pump, func() bool {
-				select {
-				case <-done:
-					return true
-				default:
-					return false
-				}
-			})
+		// (two rounds: a query that finds a fill still winding down does not start another)
+		for round := 0; round < 2; round++ {
+			for i := 0; i < 2*nHosts && k.Violation() == nil; i++ {
+				done := make(chan struct{})
+				go func() {
+					var got string
+					_ = sess.Query(fmt.Sprintf("ECHO 'tok-9-%d'", round*100+i)).Scan(&got)
+					close(done)
+				}()
+				k.SettleUntil(10*time.Second, 10*time.Millisecond, pump, func() bool {
+					select {
+					case <-done:
+						return true
+					default:
+						return false
+					}
+				})
+			}
+			k.SettleUntil(5*time.Second, 50*time.Millisecond, pump, func() bool { return false })
 		}
-		k.SettleUntil(5*time.Second, 50*time.Millisecond, pump, func() bool { return false })
 		lifeInvariants(k, cl, sess, numConns)
 		for id, conns := range sess.VerifPoolConns() {
 			live := 0
@@ -343,6 +347,11 @@ func runLife(e *Env) {
 			}
 			if live < numConns && k.Violation() == nil {
 				k.Probe("pool-not-full-after-settle")
+				if h := sess.VerifPoolHosts()[id]; h != nil && h.IsUp() {
+					// the node is reachable, the driver considers it up, two rounds of queries
+					// were routed to it and ten seconds have passed
+					k.Violate("C17", "C17/lost-connection-not-replaced", "the pool of host %s (up, reachable) holds %d of %d connections after two rounds of queries and a settle", id, live, numConns)
+				}
 			}
 		}
 		k.Probe("open-session-settled")
